@@ -184,6 +184,12 @@ class BufferedFile(ClosingContextManager):
                     new_data = self._read(self._DEFAULT_BUFSIZE)
                 except EOFError:
                     new_data = None
+                except Exception:
+                    # e.g. socket.timeout: keep what was gathered so far in
+                    # the read buffer instead of dropping it
+                    self._rbuffer = bytes(result)
+                    self._pos -= len(result)
+                    raise
                 if (new_data is None) or (len(new_data) == 0):
                     break
                 result.extend(new_data)
@@ -275,6 +281,11 @@ class BufferedFile(ClosingContextManager):
                 new_data = self._read(n)
             except EOFError:
                 new_data = None
+            except Exception:
+                # e.g. socket.timeout: keep the partial line in the read
+                # buffer instead of dropping it
+                self._rbuffer = line
+                raise
             if (new_data is None) or (len(new_data) == 0):
                 self._rbuffer = bytes()
                 self._pos += len(line)
